@@ -81,6 +81,59 @@ var mutators = []mutator{
 		}
 		return p
 	}},
+	// re-labellings that keep parts of the genuine slot string: the signed key stays a prefix and the
+	// signing device's peer id stays a suffix (arbitrary middle), key / peer id only as prefix or only as
+	// suffix, the two parts swapped, a shortened key, an empty id
+	{"relabel-longer-key", func(c *cases, b *rawValue) *spacesyncproto.StoreKeyValue {
+		// key "k" of device P filed under the slot of the longer key "k-old" of the same device
+		p := cloneProto(b.proto)
+		key, peer := splitSlot(b)
+		p.KeyPeerId = key + "-old-" + peer
+		return p
+	}},
+	{"relabel-middle", func(c *cases, b *rawValue) *spacesyncproto.StoreKeyValue {
+		p := cloneProto(b.proto)
+		key, peer := splitSlot(b)
+		mid := []string{"x", "-", "--", "old", "-" + peer + "-", key + "-", "12D3KooW"}[c.r.Intn(7)]
+		p.KeyPeerId = key + "-" + mid + peer
+		return p
+	}},
+	{"relabel-key-as-prefix", func(c *cases, b *rawValue) *spacesyncproto.StoreKeyValue {
+		p := cloneProto(b.proto)
+		key, peer := splitSlot(b)
+		p.KeyPeerId = key + []string{"x", "0", "-", "."}[c.r.Intn(4)] + "-" + peer
+		return p
+	}},
+	{"relabel-key-as-suffix", func(c *cases, b *rawValue) *spacesyncproto.StoreKeyValue {
+		p := cloneProto(b.proto)
+		key, peer := splitSlot(b)
+		p.KeyPeerId = []string{"x", "old-", "-"}[c.r.Intn(3)] + key + "-" + peer
+		return p
+	}},
+	{"relabel-peer-as-prefix", func(c *cases, b *rawValue) *spacesyncproto.StoreKeyValue {
+		p := cloneProto(b.proto)
+		key, peer := splitSlot(b)
+		p.KeyPeerId = key + "-" + peer + []string{"x", "-", "-" + peer}[c.r.Intn(3)]
+		return p
+	}},
+	{"relabel-shorter-key", func(c *cases, b *rawValue) *spacesyncproto.StoreKeyValue {
+		p := cloneProto(b.proto)
+		key, peer := splitSlot(b)
+		p.KeyPeerId = key[:len(key)-1] + "-" + peer
+		return p
+	}},
+	{"relabel-swapped", func(c *cases, b *rawValue) *spacesyncproto.StoreKeyValue {
+		p := cloneProto(b.proto)
+		key, peer := splitSlot(b)
+		p.KeyPeerId = peer + "-" + key
+		return p
+	}},
+	{"relabel-no-dash", func(c *cases, b *rawValue) *spacesyncproto.StoreKeyValue {
+		p := cloneProto(b.proto)
+		key, peer := splitSlot(b)
+		p.KeyPeerId = key + peer
+		return p
+	}},
 	{"relabel-fake", func(c *cases, b *rawValue) *spacesyncproto.StoreKeyValue {
 		p := cloneProto(b.proto)
 		p.KeyPeerId = "fake-slot"
@@ -159,4 +212,11 @@ var mutators = []mutator{
 
 func (v *rawValue) String() string {
 	return fmt.Sprintf("v%d[%s %s r%d ts=%d slot=%q]", v.vid, v.kind, v.acc, v.rec, v.ts, v.envSlot)
+}
+
+// splitSlot: the key and the peer id named in the signed bytes of a valid value
+func splitSlot(b *rawValue) (key, peer string) {
+	inner := &spacesyncproto.StoreKeyInner{}
+	_ = inner.UnmarshalVT(b.proto.Value)
+	return inner.Key, b.innerSlot[len(inner.Key)+1:]
 }
